@@ -36,6 +36,7 @@ def run_on_scratch(patch, pids, tier='quick', keep=False):
             for l in detail:
                 print('   ', l[:400])
             if p.returncode == 2:
+                results[pid]['detail'] = [p.stderr[-1500:]]
                 print(p.stderr[-2000:])
             sys.stdout.flush()
     finally:
